@@ -220,11 +220,59 @@ def split_tuple_assign(tree):
     return R().visit(tree)
 
 
+def sqrt_swap(tree):
+    """math.sqrt(x) -> np.sqrt(x) (both are the correctly rounded square root; np.sqrt of a Python float returns np.float64 - the same value)"""
+    class R(ast.NodeTransformer):
+        def visit_Call(self, n):
+            self.generic_visit(n)
+            if isinstance(n.func, ast.Attribute) and n.func.attr == 'sqrt' and isinstance(n.func.value, ast.Name) and n.func.value.id == 'math':
+                n.func.value = ast.Name(id='np', ctx=ast.Load())
+            return n
+    return R().visit(tree)
+
+
+def range_zero(tree):
+    """range(0, n) <-> range(n), np.arange(0, n) <-> np.arange(n)"""
+    class R(ast.NodeTransformer):
+        def visit_Call(self, n):
+            self.generic_visit(n)
+            f = ast.unparse(n.func)
+            if f in ('range', 'np.arange') and not n.keywords and not any(isinstance(a, ast.Starred) for a in n.args):
+                if len(n.args) == 2 and isinstance(n.args[0], ast.Constant) and n.args[0].value == 0:
+                    n.args = n.args[1:]
+                elif len(n.args) == 1:
+                    n.args = [ast.Constant(value=0)] + n.args
+            return n
+    return R().visit(tree)
+
+
+def conj_T(tree):
+    """X.conj().T / X.conjugate().T <-> X.T.conj()"""
+    class R(ast.NodeTransformer):
+        def visit_Attribute(self, n):
+            self.generic_visit(n)
+            if n.attr == 'T' and isinstance(n.value, ast.Call) and isinstance(n.value.func, ast.Attribute) \
+                    and n.value.func.attr in ('conj', 'conjugate') and not n.value.args and isinstance(n.ctx, ast.Load):
+                x = n.value.func.value
+                return ast.copy_location(ast.Call(func=ast.Attribute(value=ast.Attribute(value=x, attr='T', ctx=ast.Load()), attr='conj', ctx=ast.Load()),
+                                                  args=[], keywords=[]), n)
+            return n
+    return R().visit(tree)
+
+
+def strip_docstrings(tree):
+    for n in ast.walk(tree):
+        if isinstance(n, (ast.FunctionDef, ast.AsyncFunctionDef, ast.ClassDef, ast.Module)) and n.body and isinstance(n.body[0], ast.Expr) \
+                and isinstance(n.body[0].value, ast.Constant) and isinstance(n.body[0].value.value, str):
+            n.body = n.body[1:] or [ast.Pass()]
+    return tree
+
+
 def unparse_only(tree):
     return tree
 
 
-TRANSFORMS = {'extract-call-args': extract_call_args, 'split-tuple-assign': split_tuple_assign, 'return-temp': return_temp, 'else-after-return': else_after_return, 'dot-to-matmul': dot_to_matmul, 'compare-swap': compare_swap, 'rename-locals': rename_locals, 'swap-commute': swap_commute, 'flip-if-else': flip_if_else, 'unparse': unparse_only}
+TRANSFORMS = {'sqrt-swap': sqrt_swap, 'range-zero': range_zero, 'conj-T': conj_T, 'strip-docstrings': strip_docstrings, 'extract-call-args': extract_call_args, 'split-tuple-assign': split_tuple_assign, 'return-temp': return_temp, 'else-after-return': else_after_return, 'dot-to-matmul': dot_to_matmul, 'compare-swap': compare_swap, 'rename-locals': rename_locals, 'swap-commute': swap_commute, 'flip-if-else': flip_if_else, 'unparse': unparse_only}
 
 
 def run_one(args):
